@@ -20,9 +20,12 @@ Section Facts.
   Notation read_all := (read_all rx re_search Wd).
   Notation line_cfg := (line_cfg rx crlf_rx Wd).
   Notation all_cfg := (all_cfg rx Wd).
+  Notation read_n := (read_n rx re_search dot_n Wd).
+  Notation n_cfg := (n_cfg rx dot_n Wd).
 
   Lemma wf_line : wfW rx line_cfg. Proof. exact Wd_ok. Qed.
   Lemma wf_all : wfW rx all_cfg. Proof. exact Wd_ok. Qed.
+  Lemma wf_n n : wfW rx (n_cfg n). Proof. exact Wd_ok. Qed.
 
   (** what one readline() returns, followed by the pending text, is what was pending plus what it read; an exception
       (TIMEOUT, transport error) consumes nothing; '' is returned only at EOF with nothing pending *)
@@ -116,6 +119,45 @@ Section Facts.
     - destruct HR as (Hn & _). destruct (nsearch_some rx re_search all_cfg _ _ _ _ Hn) as [(e0 & He0 & Ho) _].
       destruct i as [|i]; cbn in He0; [injection He0 as <-; cbn in Ho; discriminate | destruct i; discriminate].
     - destruct HR as (Hi & Hb & Hp'). cbn in Hi. subst i. exists used. auto.
+    - destruct HR as (_ & _ & Hp'). exists used. auto.
+    - destruct HR as (_ & Hp'). exists used. auto.
+  Qed.
+
+  (** read(n) with no search window in force: the text returned is the NEXT n characters (or, at EOF, all that was left:
+      nothing stays pending then), nothing is skipped, and it is followed by what stays pending.  [dot_law] is the law of the
+      regex engine for '.{n}' with DOTALL: its leftmost match is the first n characters, whenever there are n.
+      (With a search window the pattern is searched in the last W characters only and the characters in front of the
+      match are dropped by spawnbase.read: see DESIGN, 'outside the properties'.) *)
+  Hypothesis dot_law : forall n w a b, re_search (dot_n n) w 0 = Some (a, b) -> a = 0 /\ b = n /\ n <= length w.
+
+  Theorem read_n_conserves n s evs : Wd = None -> Inv s ->
+    match read_n n s evs with (r, s', e') =>
+      exists used, evs = used ++ e' /\ Inv s' /\
+      match r with
+      | WText t => t ++ pend s' = pend s ++ data_of used /\ (length t = n \/ pend s' = [])
+      | WRaise _ => pend s' = pend s ++ data_of used
+      end
+    end.
+  Proof.
+    intros HW HI. unfold Wrappers.read_n. destruct n as [|n].
+    { exists []. cbn. rewrite app_nil_r. repeat split; auto. }
+    pose proof (expect_loop_post rx re_search re_span (n_cfg (S n)) false s evs (wf_n (S n)) HI) as P.
+    destruct (expect_loop rx re_search (n_cfg (S n)) false s evs) as [[r s'] e'].
+    destruct P as (r2 & P1 & P2 & (used & Hu & HP) & HI'). specialize (P2 (or_introl eq_refl)). subst r2.
+    cbn zeta in HP. destruct HP as [HC HR].
+    destruct r as [i b a [st en]|i b|i b|b].
+    - destruct HR as (Hn & Hb & Ha & Hp').
+      destruct (nsearch_some rx re_search (n_cfg (S n)) _ _ _ _ Hn) as [(e0 & He0 & Ho) _].
+      destruct i as [|[|i]]; cbn in He0.
+      + injection He0 as <-. cbn in Ho. apply dot_law in Ho as (-> & -> & Hlen).
+        cbn [Wrappers.n_cfg W] in Hb, Ha. rewrite HW in Hb, Ha, Hlen. cbn [lastW] in Hb, Ha, Hlen.
+        rewrite Nat.sub_diag in Hb. cbn in Hb. subst b. cbn [handed app] in HC.
+        exists used. split; [exact Hu|]. split; [exact HI'|]. split; [exact HC|].
+        left. rewrite Ha. cbn [skipn]. rewrite Nat.sub_0_r, firstn_length. lia.
+      + injection He0 as <-. cbn in Ho. discriminate.
+      + destruct i; discriminate.
+    - destruct HR as (Hi & Hb & Hp'). cbn in Hi. subst i. exists used. split; [exact Hu|]. split; [exact HI'|].
+      cbn [handed] in HC. split; [exact HC|]. now right.
     - destruct HR as (_ & _ & Hp'). exists used. auto.
     - destruct HR as (_ & Hp'). exists used. auto.
   Qed.
